@@ -6,3 +6,9 @@ import AGV.Props.C01
 #print axioms AGV.Props.C01.c01_union_condition_repaired_example
 #print axioms AGV.Props.C01.c01_skip_default_witness
 #print axioms AGV.Props.C01.c01_nan_nonnull_witness
+#print axioms AGV.Props.C01.c01_data_full_needs_validity
+#print axioms AGV.Props.C01.c01_repeated_key_error_witness
+#print axioms AGV.Props.C01.c01_collect_partial
+#print axioms AGV.Props.C01.c01_collect_spread_once
+#print axioms AGV.Props.C01.c01_data_partial_nodup
+#print axioms AGV.Props.C01.c01_data_partial_nodup_example
